@@ -587,3 +587,13 @@ def h_stack(ip, st, args, kw, node):
 
 
 HANDLERS['numpy.stack'] = h_stack
+
+
+def h_partial(ip, st, args, kw, node):
+    """functools.partial(f, *args, **kw): a callable value the interpreter can call later"""
+    if not args:
+        return app('functools.partial')
+    return Const(('partial', args[0], tuple(args[1:]), tuple(sorted(kw.items()))))
+
+
+HANDLERS['functools.partial'] = h_partial
